@@ -258,7 +258,7 @@ theorem new_count {t : T} {flat : List (Id × Ind)} {nd : List Deme} (l : Nat)
 theorem round_inv {L : Nat} {t t' : T} {ge : Option Bool} {renv : Sprout.Env} {news : List NewEnv}
     (hlim : HasLimit t.cfg L) (hinv : Inv L t) (h : stepRound t ge renv news = .ok t') : Inv L t' := by
   obtain ⟨hc, _, _, _, _, _, hcase⟩ := stepRound_effect h
-  rcases hcase with ⟨hd, _, _, _⟩ | ⟨_, _, _, seeds, t1, hseeds, se, _, rfl⟩
+  rcases hcase with ⟨hd, _, _, _, _⟩ | ⟨_, _, _, seeds, t1, hseeds, se, _, rfl⟩
   · exact ⟨by intro d hd'; rw [hd] at hd'; exact hinv.1 d hd', by
       intro l h1 h2; rw [hd]; exact hinv.2 l h1 (by simpa [T.height, hc] using h2)⟩
   · obtain ⟨old, nd, hd1, hf, hnew⟩ := se.demes
